@@ -34,6 +34,9 @@ def src_numbers(src, d):
     if src["kind"] == "abs":
         sig = np.full(n, src["s"] / 10.0)
         rel = None
+    elif src["kind"] == "relm":
+        rel = src["s"] / 100.0
+        sig = rel * np.array([2.0, 3.0, 4.0])           # model at the default parameters
     else:
         rel = src["s"] / 100.0
         sig = rel * np.asarray(d, dtype=float)          # signed
@@ -45,11 +48,12 @@ def direct_add(fit, kind, src, form, d, alt=0):
     pre = ("y",) if kind == "xy" else ()
     n = len(d)
     rho, cor, sig, rel = src_numbers(src, d)
-    relative = src["kind"] == "rel"
+    relative = src["kind"] in ("rel", "relm")
+    ref = dict(reference="model") if src["kind"] == "relm" else {}
     if form == "scalar":
-        fit.add_error(*pre, err_val=(rel if relative else float(sig[0])), correlation=rho, relative=relative)
+        fit.add_error(*pre, err_val=(rel if relative else float(sig[0])), correlation=rho, relative=relative, **ref)
     elif form == "vector":
-        fit.add_error(*pre, err_val=([rel] * n if relative else [float(v) for v in sig]), correlation=rho, relative=relative)
+        fit.add_error(*pre, err_val=([rel] * n if relative else [float(v) for v in sig]), correlation=rho, relative=relative, **ref)
     elif form == "cov":
         m = cor * rel ** 2 if relative else cor * np.outer(sig, sig)
         fit.add_matrix_error(*pre, err_matrix=m, matrix_type="cov", relative=relative)
@@ -127,7 +131,7 @@ def build_side(kind, d, decls, model_form="callable"):
     from kafe2.fit.util import wrapper
     notes = []
     y = [float(v) for v in d]
-    is_src = lambda e: e["item"]["kind"] in ("abs", "rel")
+    is_src = lambda e: e["item"]["kind"] in ("abs", "rel", "relm")
     yaml_items = [e for e in decls if e["form"] in ("yaml_short", "yaml_full", "yaml")]
     wrap_items = [e for e in decls if e["form"] == "wrapper"]
     done = set()
@@ -184,14 +188,15 @@ def build_side(kind, d, decls, model_form="callable"):
     elif wrap_items:
         kw = {}
         pre = "y_" if kind == "xy" else ""
+        to_model = any(e["item"]["kind"] == "relm" for e in wrap_items)      # errors_rel_to_model is one switch per call
         for e in wrap_items:
             if is_src(e):
                 src = e["item"]
                 rho, cor, sig, rel = src_numbers(src, d)
-                key = pre + "error" + ("_cor" if src["h"] == 2 else "") + ("_rel" if src["kind"] == "rel" else "")
-                if key in kw:
+                key = pre + "error" + ("_cor" if src["h"] == 2 else "") + ("_rel" if src["kind"] in ("rel", "relm") else "")
+                if key in kw or (src["kind"] == "rel" and to_model):
                     continue          # the keyword is taken: this item is added directly afterwards
-                kw[key] = rel if src["kind"] == "rel" else float(sig[0])
+                kw[key] = rel if src["kind"] in ("rel", "relm") else float(sig[0])
                 done.add(id(e))
             else:
                 c = e["item"]
@@ -200,11 +205,12 @@ def build_side(kind, d, decls, model_form="callable"):
                 kw["constraints"] = ("a", float(c["v"]), c["u"] / 10.0)
                 done.add(id(e))
         model = {"callable": linear_model, "library": "linear_model", "sympy": "linear_model: x a b -> a * x + b"}.get(model_form, linear_model)
-        cwd = os.getcwd()
+        if not to_model:
+            kw["errors_rel_to_model"] = False      # otherwise the documented default (True) is used
         if kind == "xy":
-            res = wrapper.xy_fit(model, X, y, errors_rel_to_model=False, report=False, profile=False, save=False, **kw)
+            res = wrapper.xy_fit(model, X, y, report=False, profile=False, save=False, **kw)
         else:
-            res = wrapper.indexed_fit(idx_model, y, errors_rel_to_model=False, report=False, profile=False, save=False, **kw)
+            res = wrapper.indexed_fit(idx_model, y, report=False, profile=False, save=False, **kw)
         fit = res["fit"]
         notes.append("wrapper:%s" % ",".join(sorted(kw)))
     else:
@@ -319,7 +325,7 @@ def replay_walk(walk, kind="xy", model_form="callable"):
             iss = compare_sides(kind, d, left, right, e["total"], e["cons"], k, model_form, do_fit=False)
             if iss:
                 return iss
-    if not any(e["item"]["kind"] in ("abs", "rel") for e in left):
+    if not any(e["item"]["kind"] in ("abs", "rel", "relm") for e in left):
         return []
     return compare_sides(kind, d, left, right, last["total"], last["cons"], max(k, 0), model_form, do_fit=True)
 
